@@ -60,7 +60,7 @@ pub const ALL_KINDS: &[Kind] = &[
 ];
 
 /// Array lengths instantiated by macro.
-pub const ARR_LENS: &[usize] = &[0, 1, 2, 3, 4, 5, 8, 13];
+pub const ARR_LENS: &[usize] = &[0, 1, 2, 3, 4, 5, 8, 13, 150, 1300];
 
 impl Kind {
     pub fn name(self) -> &'static str {
@@ -457,6 +457,13 @@ pub struct Case {
     pub freeze: Option<(usize, usize)>,
     pub fault: Option<Fault>,
     pub terminal: Terminal,
+    /// E1 only: number of further unsuccessful polls a waiting thread makes before the scheduler treats it as
+    /// waiting (0 = the scheduler runs somebody else as soon as the wait is recognised); exercises back-off
+    /// paths behind a poll-count threshold
+    pub spin: usize,
+    /// a thread whose operation panicked (injected fault, caught per operation) continues with its next
+    /// operation on the same handles instead of ending like a panicking scoped thread
+    pub keep_going: bool,
 }
 
 impl Case {
@@ -476,6 +483,8 @@ impl Case {
             freeze: None,
             fault: None,
             terminal: Terminal::Drop,
+            spin: 0,
+            keep_going: false,
         }
     }
 
@@ -524,6 +533,12 @@ impl Case {
         if let Some((t, k)) = self.freeze {
             m.insert("freeze".into(), json!([t, k]));
         }
+        if self.spin != 0 {
+            m.insert("spin".into(), json!(self.spin));
+        }
+        if self.keep_going {
+            m.insert("keep_going".into(), json!(true));
+        }
         if let Some(f) = self.fault {
             let s = match f.site {
                 FaultSite::ProbeNext => "ProbeNext",
@@ -567,6 +582,8 @@ impl Case {
         };
         let extra_cap = v.get("extra_cap").and_then(|x| x.as_u64()).unwrap_or(0) as usize;
         let pre = v.get("pre").and_then(|x| x.as_u64()).unwrap_or(0) as usize;
+        let spin = v.get("spin").and_then(|x| x.as_u64()).unwrap_or(0) as usize;
+        let keep_going = v.get("keep_going").and_then(|x| x.as_bool()).unwrap_or(false);
         let mut threads = vec![];
         for t in v
             .get("threads")
@@ -642,6 +659,8 @@ impl Case {
             freeze,
             fault,
             terminal,
+            spin,
+            keep_going,
         })
     }
 
